@@ -130,6 +130,8 @@ def model_apply(m: Model, op):
     if k == "concat":
         other = dict(op[1])
         return Model({n: s + other[n] for n, s in rows.items()}, m.mol)
+    if k == "concat_self":
+        return Model({n: s + s for n, s in rows.items()}, m.mol)
     if k in ("to_type", "copy", "deepcopy"):
         return Model(rows, m.mol)
     if k in ("to_dna", "to_rna"):
@@ -178,6 +180,8 @@ def real_apply(aln, op, mol):
     if k == "concat":
         other = make_aln(op[1], mol, type(aln).__name__ == "ArrayAlignment")
         return aln + other
+    if k == "concat_self":
+        return aln + aln  # both operands are the same object (rows share their underlying data)
     if k == "to_type":
         return aln.to_type(array_align=type(aln).__name__ != "ArrayAlignment")
     if k == "copy":
@@ -241,6 +245,7 @@ def alphabet(m: Model):
     ops.append(("concat", tuple(other.items())))
     if len(other) > 1:
         ops.append(("concat", tuple(reversed(list(other.items())))))  # same names, different order in the right operand
+    ops.append(("concat_self",))
     ops.append(("to_type",))
     ops.append(("copy",))
     ops.append(("deepcopy", True))
